@@ -12,8 +12,8 @@ THEOREMS = ["IsoVerif.Props.C12.C12_witness_negative_int", "IsoVerif.Props.C12.C
             "IsoVerif.Props.C12.C12_alias_factor", "IsoVerif.Props.C12.C12_char"]
 HARNESS = ("hx_printers", {"HX_ENGINE": "alias", "HX_PROP": "C12"})
 DRIVER = "drv_printers"
-CASES = {"quick": 4000, "thorough": 300000}
-PROJECT_CASES = {"quick": 40, "thorough": 3000}
+CASES = {"quick": 3000, "thorough": 300000}
+PROJECT_CASES = {"quick": 30, "thorough": 3000}
 TECHNIQUE = ("Lean 4 theorems over executable models of the compiler's alias function (Rust, per char) and of the runtime's getNetworkResponseKey "
              "(cache.ts, UTF-16 code units, JavaScript literal evaluation and Number formatting): witnesses refuting the three clauses, proofs on the argument "
              "classes on which they hold, exact characterisation of key equality; correspondence with the Rust functions in-process and with the functions cut out "
